@@ -16,14 +16,36 @@ use std::collections::{BTreeMap, BTreeSet};
 use std::io::{BufRead, Write};
 use std::sync::atomic::{AtomicU64, Ordering};
 
-pub const AS_CAP_BYTES: u64 = 6 << 30;
-pub const DEADLINE_S: u64 = 20;
+/// limits of a worker: (address-space cap in bytes, per-text deadline in seconds).
+/// Normal texts parse in tens of microseconds: 1 GiB / 10 s. "Heavy" texts declare a bit-vector
+/// sort of 2^24 bits or more; materialising a literal of 2^32-1 bits legitimately needs > 1 GiB
+/// and tens of seconds, so in the thorough tier they get 8 GiB / 120 s (and run 4 at a time).
+pub static THOROUGH: std::sync::atomic::AtomicBool = std::sync::atomic::AtomicBool::new(false);
+pub fn limits(heavy: bool) -> (u64, u64) {
+    if heavy && THOROUGH.load(Ordering::Relaxed) { (8 << 30, 120) } else { (1 << 30, 10) }
+}
+
+/// grammar-level test: some `sort bitvec` line declares at least 2^24 bits
+pub fn is_heavy(text: &str) -> bool {
+    text.lines().any(|l| {
+        let t: Vec<&str> = l.split(';').next().unwrap_or("").split([' ', '\t']).filter(|x| !x.is_empty()).collect();
+        t.len() >= 4 && t[1] == "sort" && t[2] == "bitvec" && t[3].parse::<u64>().map(|w| w >= (1 << 24)).unwrap_or(false)
+    })
+}
+
+/// grammar-level test: the text has a constant line
+pub fn has_literal_line(text: &str) -> bool {
+    text.lines().any(|l| {
+        let t: Vec<&str> = l.split(';').next().unwrap_or("").split([' ', '\t']).filter(|x| !x.is_empty()).collect();
+        t.len() >= 2 && ["const", "constd", "consth", "zero", "one", "ones"].contains(&t[1])
+    })
+}
 
 pub fn meta(rep: &mut Report) {
     rep.rule = "mutation with deviation bound over a corpus of 12 small valid btor2 files that together use every line kind: delete / duplicate / swap lines; every token (id, tag, sort id, operand, parameter, symbol) deleted or replaced by every element of a hostile menu (every other id of the file and its negation, 0, -0, 1, 2^31, 2^32-1, 2^32, 2^63, 2^64, -, x, e-acute, 1✖2, every tag name incl. the unsupported ones); width 0; slice bounds reversed / out of range; array sorts over array sorts; grammar-generated ill-sorted lines (operator x every operand-kind combination x every declared sort). quick: all single mutations + the reduced ill-sorted grammar; thorough: additionally all pairs of mutations on the 6 smallest files (reduced menu) and the full ill-sorted grammar. Each text runs in a worker subprocess (address-space cap, deadline). Outcome must be None, Some(sys) with sys passing the acceptance oracle, or a panic carrying one of the reader's documented not-yet-supported markers. distinct_nontrivial = distinct texts for which the reader returned a system.".into();
     rep.assumptions = vec![
         "allowed panics: parse.rs todo!(\"support fairness constraints\"), todo!(\"Add support for bit rotates.\"), todo!(\"Add support for overflow operators\"), \"TODO: implement support for <op> operation\", \"unexpected unary op: inc|dec\" — only when raised in btor2/parse.rs".into(),
-        format!("worker address-space cap {} GiB, deadline {DEADLINE_S} s per text (normal run time is microseconds); a deadline is reported only after the text timed out twice", AS_CAP_BYTES >> 30),
+        "worker limits: address-space cap 1 GiB and 10 s per text (normal run time is tens of microseconds); texts declaring a sort of >= 2^24 bits (`heavy`) get 8 GiB / 120 s in the thorough tier and run 4 at a time; the quick tier drops heavy texts that also contain a constant line (a 2^32-1-bit literal legitimately needs > 1 GiB and 10-70 s) and counts them; a deadline is reported only after the text timed out twice".into(),
         "acceptance oracle: deep reference type check of every init/next/output/bad/constraint, init/next type = state type, inputs and state symbols are symbols, every symbol used is a declared input or state, bad/constraint are 1 bit wide, and when the text is well-formed for the reference reader the sorts of inputs/states/outputs equal the declared ones".into(),
     ];
 }
@@ -115,7 +137,9 @@ pub fn acceptance_oracle(ctx: &Context, sys: &TransitionSystem, text: &str) -> O
             }
         }
         // declared sorts, when the reference reader can tell them
-        if let Ok(f) = btorref::parse(text) {
+        if !is_heavy(text)
+            && let Ok(f) = btorref::parse(text)
+        {
             let ei = f.effective_inputs();
             let es = f.effective_states();
             if ei.len() == sys.inputs.len() && es.len() == sys.states.len() && f.outputs.len() == sys.outputs.len() {
@@ -174,9 +198,13 @@ pub struct WRes {
 }
 
 fn run_one_inproc(text: &str) -> WRes {
-    let refclass = match btorref::parse(text) {
-        Ok(_) => "ok".to_string(),
-        Err(e) => e.class().to_string(),
+    let refclass = if is_heavy(text) {
+        "heavy-not-classified".to_string()
+    } else {
+        match btorref::parse(text) {
+            Ok(_) => "ok".to_string(),
+            Err(e) => e.class().to_string(),
+        }
     };
     let mut ctx = Context::default();
     match catch(|| patronus::btor2::parse_str(&mut ctx, text, Some("c18"))) {
@@ -210,7 +238,8 @@ fn run_one_inproc(text: &str) -> WRes {
 /// entry point of the worker process: `drv-btor --c18-worker <batch.json> <start>`
 pub fn worker_main(args: &[String]) -> ! {
     unsafe {
-        let lim = libc::rlimit { rlim_cur: AS_CAP_BYTES, rlim_max: AS_CAP_BYTES };
+        let cap: u64 = args.get(4).and_then(|s| s.parse().ok()).unwrap_or(1 << 30);
+        let lim = libc::rlimit { rlim_cur: cap, rlim_max: cap };
         libc::setrlimit(libc::RLIMIT_AS, &lim);
     }
     install_panic_hook();
@@ -244,6 +273,8 @@ pub fn run_batch(texts: &[String]) -> Vec<WRes> {
     let path = dir.join(format!("c18-batch-{}-{n}.json", std::process::id()));
     std::fs::write(&path, serde_json::to_string(texts).unwrap()).expect("write batch");
     let exe = std::env::current_exe().expect("current exe");
+    let (cap, deadline) = limits(texts.iter().any(|t| is_heavy(t)));
+    let deadline_s = || deadline;
     let mut out: Vec<WRes> = Vec::with_capacity(texts.len());
     while out.len() < texts.len() {
         let start = out.len();
@@ -251,6 +282,7 @@ pub fn run_batch(texts: &[String]) -> Vec<WRes> {
             .arg("--c18-worker")
             .arg(&path)
             .arg(start.to_string())
+            .arg(cap.to_string())
             .stdin(std::process::Stdio::null())
             .stdout(std::process::Stdio::piped())
             .stderr(std::process::Stdio::null())
@@ -270,7 +302,7 @@ pub fn run_batch(texts: &[String]) -> Vec<WRes> {
             if out.len() == texts.len() {
                 break;
             }
-            match rx.recv_timeout(std::time::Duration::from_secs(DEADLINE_S)) {
+            match rx.recv_timeout(std::time::Duration::from_secs(deadline_s())) {
                 Ok(l) => {
                     let v: Value = serde_json::from_str(&l).unwrap_or(Value::Null);
                     if v["i"].as_u64() != Some(out.len() as u64) {
@@ -293,7 +325,7 @@ pub fn run_batch(texts: &[String]) -> Vec<WRes> {
                 }
                 Err(std::sync::mpsc::RecvTimeoutError::Timeout) => {
                     let _ = child.kill();
-                    out.push(WRes { kind: Kind::Deadline, msg: format!("no result within {DEADLINE_S} s"), loc: String::new(), fail_line: None, check: None, refclass: String::new() });
+                    out.push(WRes { kind: Kind::Deadline, msg: format!("no result within {} s", deadline_s()), loc: String::new(), fail_line: None, check: None, refclass: String::new() });
                     break;
                 }
                 Err(std::sync::mpsc::RecvTimeoutError::Disconnected) => {
@@ -319,6 +351,19 @@ pub fn run_batch(texts: &[String]) -> Vec<WRes> {
     }
     let _ = std::fs::remove_file(&path);
     out
+}
+
+/// shortest line prefix of `text` that fails the same way (abort / deadline), found by bisection
+/// through the worker; returns the 0-based index of its last line
+pub fn bisect_fail_line(text: &str, kind: &Kind) -> usize {
+    let lines: Vec<&str> = text.trim_end().split('\n').collect();
+    let (mut lo, mut hi) = (0usize, lines.len()); // prefix of length hi fails, length lo does not
+    while hi - lo > 1 {
+        let mid = (lo + hi) / 2;
+        let r = run_single(&format!("{}\n", lines[..mid].join("\n")));
+        if r.kind == *kind { hi = mid } else { lo = mid }
+    }
+    hi - 1
 }
 
 pub fn run_single(text: &str) -> WRes {
@@ -411,7 +456,7 @@ fn join(lines: &[String]) -> String {
     s
 }
 
-pub fn single_mutations(text: &str, reduced: bool) -> Vec<Mutant> {
+pub fn single_mutations(text: &str, reduced: bool, heavy: bool) -> Vec<Mutant> {
     let lines: Vec<String> = text.lines().map(|l| l.to_string()).collect();
     let mut out: Vec<Mutant> = vec![];
     for i in 0..lines.len() {
@@ -453,6 +498,9 @@ pub fn single_mutations(text: &str, reduced: bool) -> Vec<Mutant> {
                 if *m == toks[k] {
                     continue;
                 }
+                if !heavy && m == "2147483648" && k == 3 && toks[1] == "sort" {
+                    continue;
+                }
                 let mut t = toks.clone();
                 t[k] = m.clone();
                 let mut l = lines.clone();
@@ -484,7 +532,8 @@ pub fn single_mutations(text: &str, reduced: bool) -> Vec<Mutant> {
         }
         // targeted: width 0 and huge widths
         if toks.len() >= 4 && toks[1] == "sort" && toks[2] == "bitvec" {
-            for w in ["0", "4294967295", "4294967294"] {
+            let ws: &[&str] = if heavy { &["0", "4294967295", "4294967294", "2147483647"] } else { &["0", "4294967295"] };
+            for w in ws.iter().copied() {
                 let mut t = toks.clone();
                 t[3] = w.into();
                 let mut l = lines.clone();
@@ -524,13 +573,13 @@ pub fn single_mutations(text: &str, reduced: bool) -> Vec<Mutant> {
 /// first (reduced menu), so line insertions / deletions compose correctly
 pub fn pair_mutations(text: &str) -> Vec<Mutant> {
     let mut out = vec![];
-    let first = single_mutations(text, true);
+    let first = single_mutations(text, true, false);
     let mut seen: BTreeSet<u64> = BTreeSet::new();
     for (_, t1) in first.iter() {
         if !seen.insert(hash64(t1)) {
             continue;
         }
-        for (_, t2) in single_mutations(t1, true) {
+        for (_, t2) in single_mutations(t1, true, false) {
             out.push(("pair", t2));
         }
     }
@@ -697,7 +746,7 @@ pub fn line_shape(text: &str, idx: usize) -> (String, String) {
     } else if ["output", "bad", "constraint", "fair", "justice"].contains(&tagc) {
         kinds.extend(t.get(2).map(|x| kind_of(x)));
     } else {
-        kinds.push(format!("decl:{}", t.get(2).map(|x| sorts.get(x).cloned().unwrap_or("nosort".into())).unwrap_or("missing".into())));
+        let decl = t.get(2).map(|x| sorts.get(x).cloned().unwrap_or("nosort".into())).unwrap_or("missing".into());
         let n = if tagc == "init" || tagc == "next" {
             2
         } else if btorref::is_operator(tagc) {
@@ -707,6 +756,12 @@ pub fn line_shape(text: &str, idx: usize) -> (String, String) {
         };
         for x in t.iter().skip(3).take(n) {
             kinds.push(kind_of(x));
+        }
+        // operand kinds as a set (one defect shows up under few signatures)
+        kinds.sort();
+        kinds.dedup();
+        if decl != "bv" && decl != "arr" {
+            kinds.insert(0, format!("decl:{decl}"));
         }
     }
     (if tag.is_empty() { "<none>".into() } else { tag }, kinds.join(","))
@@ -735,6 +790,7 @@ fn presig(text: &str, r: &WRes) -> Option<String> {
     let class = violation_class(r)?;
     let idx = match r.kind {
         Kind::Panic => r.fail_line.unwrap_or(text.split('\n').count().saturating_sub(1)),
+        Kind::Abort | Kind::Deadline => r.fail_line.unwrap_or(usize::MAX),
         _ => usize::MAX,
     };
     let (tag, kinds) = if idx == usize::MAX { (String::new(), String::new()) } else { line_shape(text, idx) };
@@ -766,7 +822,7 @@ fn final_sig(text: &str, r: &WRes) -> Option<(String, String)> {
             Some((format!("C18|{class}|{tag}|{kinds}|"), format!("the reader accepts `{one_line}` but the returned system is not well-formed ({c}): {m}")))
         }
         Kind::Abort | Kind::Deadline => {
-            let last = text.trim_end().split('\n').count().saturating_sub(1);
+            let last = r.fail_line.unwrap_or(text.trim_end().split('\n').count().saturating_sub(1));
             let (tag, kinds) = line_shape(text, last);
             Some((format!("C18|{class}|{tag}|{kinds}|"), format!("reading `{one_line}` does not come back cleanly: {}", r.msg)))
         }
@@ -780,26 +836,58 @@ fn same_failure(a: &WRes, b: &WRes) -> bool {
 }
 
 fn shrink_case(text: &str, r: &WRes) -> (String, WRes) {
-    // in-process shrinking is safe for plain panics and rejected checks; aborts and deadlines are
-    // shrunk through the worker
+    if matches!(r.kind, Kind::Abort | Kind::Deadline) {
+        // prefix up to the failing line; for aborts one pass of line deletions through the worker
+        let lines: Vec<&str> = text.trim_end().split('\n').collect();
+        let k = r.fail_line.unwrap_or(lines.len() - 1).min(lines.len() - 1);
+        let mut keep: Vec<String> = lines[..=k].iter().map(|l| l.to_string()).collect();
+        if r.kind == Kind::Abort {
+            let mut i = keep.len() - 1;
+            while i > 0 {
+                i -= 1;
+                let mut cand = keep.clone();
+                cand.remove(i);
+                if run_single(&format!("{}\n", cand.join("\n"))).kind == Kind::Abort {
+                    keep = cand;
+                }
+            }
+        }
+        let min = format!("{}\n", keep.join("\n"));
+        let mut r2 = r.clone();
+        r2.fail_line = Some(keep.len() - 1);
+        return (min, r2);
+    }
+    // in-process shrinking is safe for plain panics and rejected checks unless huge numbers occur
     let big_number = text.split(|c: char| !c.is_ascii_digit()).any(|t| t.len() >= 10);
-    let through_worker = big_number || matches!(r.kind, Kind::Abort | Kind::Deadline);
     let fails = |t: &str| -> bool {
-        let r2 = if through_worker { run_single(t) } else { run_one_inproc(t) };
+        let r2 = if big_number { run_single(t) } else { run_one_inproc(t) };
         same_failure(r, &r2)
     };
     let min = shrink_text(text, &fails);
-    let r2 = if through_worker { run_single(&min) } else { run_one_inproc(&min) };
+    let r2 = if big_number { run_single(&min) } else { run_one_inproc(&min) };
     if same_failure(r, &r2) { (min, r2) } else { (text.to_string(), r.clone()) }
 }
 
 // ------------------------------------------------------------------ driver
 
 fn process(texts: &[(&'static str, String)], base_order: u64, rep: &Report, budget: &Budget, pending: &mut BTreeMap<String, (u64, String, WRes)>) -> bool {
-    const CHUNK: usize = 1500;
-    let chunks: Vec<&[(&'static str, String)]> = texts.chunks(CHUNK).collect();
+    const CHUNK: usize = 400;
+    // heavy texts run one per worker (thorough: 4 at a time), the others in chunks
+    let mut normal: Vec<(usize, &(&'static str, String))> = vec![];
+    let mut heavy: Vec<(usize, &(&'static str, String))> = vec![];
+    for (i, t) in texts.iter().enumerate() {
+        if is_heavy(&t.1) { heavy.push((i, t)) } else { normal.push((i, t)) }
+    }
     let mut capped = false;
-    for (gi, group) in chunks.chunks(32).enumerate() {
+    let mut groups: Vec<Vec<Vec<(usize, &(&'static str, String))>>> = vec![];
+    for g in normal.chunks(CHUNK * 16) {
+        groups.push(g.chunks(CHUNK).map(|c| c.to_vec()).collect());
+    }
+    let heavy_par = if THOROUGH.load(Ordering::Relaxed) { 4 } else { 16 };
+    for g in heavy.chunks(heavy_par) {
+        groups.push(g.iter().map(|x| vec![*x]).collect());
+    }
+    for group in groups.iter() {
         if budget.exceeded() {
             capped = true;
             break;
@@ -807,26 +895,34 @@ fn process(texts: &[(&'static str, String)], base_order: u64, rep: &Report, budg
         let results: Vec<Vec<WRes>> = group
             .par_iter()
             .map(|ch| {
-                let ts: Vec<String> = ch.iter().map(|x| x.1.clone()).collect();
-                run_batch(&ts)
+                let ts: Vec<String> = ch.iter().map(|x| x.1.1.clone()).collect();
+                let mut rs = run_batch(&ts);
+                for (r, t) in rs.iter_mut().zip(ts.iter()) {
+                    if r.kind == Kind::Deadline {
+                        // confirm: the same text alone must time out again
+                        let again = run_single(t);
+                        if again.kind != Kind::Deadline {
+                            again.clone_into(r);
+                            r.msg = format!("[deadline not confirmed] {}", r.msg);
+                        }
+                    }
+                    if matches!(r.kind, Kind::Abort | Kind::Deadline) {
+                        r.fail_line = Some(bisect_fail_line(t, &r.kind));
+                    }
+                }
+                rs
             })
             .collect();
         let mut counts: BTreeMap<String, u64> = BTreeMap::new();
         let mut hashes = vec![];
-        for (ci, (ch, rs)) in group.iter().zip(results.iter()).enumerate() {
-            for (i, ((class, text), r)) in ch.iter().zip(rs.iter()).enumerate() {
-                let order = base_order + ((gi * 32 + ci) * CHUNK + i) as u64;
+        for (ch, rs) in group.iter().zip(results.iter()) {
+            for ((i, (class, text)), r) in ch.iter().zip(rs.iter()) {
+                let order = base_order + *i as u64;
                 *counts.entry("evaluations".into()).or_insert(0) += 1;
                 *counts.entry(format!("mutation:{class}")).or_insert(0) += 1;
                 *counts.entry(format!("ref:{}", r.refclass)).or_insert(0) += 1;
-                let mut r = r.clone();
-                if r.kind == Kind::Deadline {
-                    // confirm: the same text alone must time out again
-                    let again = run_single(text);
-                    if again.kind != Kind::Deadline {
-                        *counts.entry("deadline-not-confirmed".into()).or_insert(0) += 1;
-                        r = again;
-                    }
+                if r.msg.starts_with("[deadline not confirmed]") {
+                    *counts.entry("deadline-not-confirmed".into()).or_insert(0) += 1;
                 }
                 match r.kind {
                     Kind::None => *counts.entry("outcome:none".into()).or_insert(0) += 1,
@@ -835,6 +931,9 @@ fn process(texts: &[(&'static str, String)], base_order: u64, rep: &Report, budg
                         *counts.entry(if r.check.is_some() { "outcome:some-illformed".to_string() } else { "outcome:some-ok".to_string() }).or_insert(0) += 1;
                         if r.refclass != "ok" {
                             *counts.entry(format!("accepted-although-ref:{}", r.refclass)).or_insert(0) += 1;
+                        }
+                        if r.refclass == "illsorted" && r.check.is_none() {
+                            *counts.entry("accepted-illsorted-and-passing-the-oracle".into()).or_insert(0) += 1;
                         }
                     }
                     Kind::Panic => {
@@ -847,11 +946,11 @@ fn process(texts: &[(&'static str, String)], base_order: u64, rep: &Report, budg
                     Kind::Abort => *counts.entry("outcome:abort".into()).or_insert(0) += 1,
                     Kind::Deadline => *counts.entry("outcome:deadline".into()).or_insert(0) += 1,
                 }
-                if let Some(ps) = presig(text, &r) {
+                if let Some(ps) = presig(text, r) {
                     match pending.get(&ps) {
                         Some(old) if old.0 <= order => {}
                         _ => {
-                            pending.insert(ps, (order, text.clone(), r));
+                            pending.insert(ps, (order, text.clone(), r.clone()));
                         }
                     }
                 }
@@ -886,6 +985,7 @@ pub fn run(opts: &Opts, rep: &Report) {
         _ => unreachable!(),
     };
     let thorough = tier.is_thorough();
+    THOROUGH.store(thorough, Ordering::Relaxed);
     let budget = Budget::new(opts.budget_s);
     let _gag = StderrGag::new();
     let corpus = corpus();
@@ -921,7 +1021,7 @@ pub fn run(opts: &Opts, rep: &Report) {
     // stage 1: all single mutations
     let mut singles: Vec<Mutant> = vec![];
     for f in corpus.iter() {
-        singles.extend(single_mutations(f, false));
+        singles.extend(single_mutations(f, false, thorough));
     }
     {
         let classes: BTreeSet<&str> = singles.iter().map(|m| m.0).collect();
@@ -935,6 +1035,12 @@ pub fn run(opts: &Opts, rep: &Report) {
             machinery_failure("C18 mutants: the reference reader sees only one verdict");
         }
     }
+    if !thorough {
+        let before = singles.len();
+        singles.retain(|m| !(is_heavy(&m.1) && has_literal_line(&m.1)));
+        rep.add("quick-tier-dropped-heavy-texts-with-constant-lines", (before - singles.len()) as u64);
+    }
+    rep.add("heavy-texts", singles.iter().filter(|m| is_heavy(&m.1)).count() as u64);
     rep.sample(json!({"mutation": singles[singles.len() / 2].0, "text": singles[singles.len() / 2].1}));
     let n_single = singles.len();
     if !process(&singles, order, rep, &budget, &mut pending) {
@@ -967,7 +1073,9 @@ pub fn run(opts: &Opts, rep: &Report) {
         }
     }
     rep.note("stages", json!({"corpus": corpus.len(), "single": n_single, "grammar": n_grammar, "pairs": n_pairs}));
+    let t_enum = rep.elapsed();
     flush(pending, rep);
+    rep.note("wall_split_s", json!({"enumeration": t_enum, "shrinking": rep.elapsed() - t_enum}));
 }
 
 pub fn replay(case: &Value, rep: &Report) {
